@@ -117,4 +117,63 @@ theorem taskShuffle_getElem?_valid (parts : List (List (Nat × α))) (nOut k S :
     rw [Nat.mod_eq_of_lt (by omega)]
   · rfl
 
+/-! ### the disk shuffle: right rows, arrival order -/
+
+theorem orderedShuffle_length (ps : List (List (Nat × α))) (n : Nat) : (orderedShuffle ps n).length = n := by
+  simp [orderedShuffle]
+
+theorem orderedShuffle_getElem? (ps : List (List (Nat × α))) (n p : Nat) (hp : p < n) :
+    (orderedShuffle ps n)[p]? = some (ps.flatten.filter fun r => r.1 == p) := by
+  unfold orderedShuffle
+  rw [List.getElem?_map, List.getElem?_range hp]; rfl
+
+/-- collecting the partitions in any arrival order gives the same multiset of rows -/
+theorem arrival_flatten_perm (arrival : List Nat) (parts : List (List (Nat × α)))
+    (h : arrival.Perm (List.range parts.length)) :
+    (arrival.map fun i => parts.getD i []).flatten.Perm parts.flatten := by
+  have h1 := (h.map fun i => parts.getD i []).flatten
+  have h2 := flatMap_getD_range parts parts.length (Nat.le_refl _)
+  rw [List.flatMap_def] at h2
+  rw [h2] at h1
+  exact h1
+
+/-- **disk shuffle**: for ANY arrival order of the input partitions there are `nOut` outputs and output `p` holds, in
+    some order, exactly the rows with target `p` (multiplicity included) -/
+theorem diskShuffle_spec (arrival : List Nat) (parts : List (List (Nat × α))) (nOut : Nat)
+    (h : arrival.Perm (List.range parts.length)) :
+    (diskShuffle arrival parts nOut).length = nOut ∧
+    ∀ p, p < nOut → ((diskShuffle arrival parts nOut).getD p []).Perm (parts.flatten.filter fun r => r.1 == p) := by
+  refine ⟨orderedShuffle_length _ _, ?_⟩
+  intro p hp
+  unfold diskShuffle
+  rw [List.getD_eq_getElem?_getD, orderedShuffle_getElem? _ _ _ hp]
+  exact (arrival_flatten_perm arrival parts h).filter _
+
+theorem diskShuffle_mem (arrival : List Nat) (parts : List (List (Nat × α))) (nOut : Nat)
+    (h : arrival.Perm (List.range parts.length)) (p : Nat) (out : List (Nat × α))
+    (hout : (diskShuffle arrival parts nOut)[p]? = some out) (r : Nat × α) (hr : r ∈ out) :
+    r ∈ parts.flatten ∧ r.1 = p := by
+  have hp : p < nOut := by
+    have := (List.getElem?_eq_some_iff.mp hout).1
+    rwa [(diskShuffle_spec arrival parts nOut h).1] at this
+  have := (diskShuffle_spec arrival parts nOut h).2 p hp
+  rw [List.getD_eq_getElem?_getD, hout] at this
+  have hm := List.mem_filter.mp (this.mem_iff.mp hr)
+  exact ⟨hm.1, by simpa using hm.2⟩
+
+theorem diskShuffle_flatten_perm (arrival : List Nat) (parts : List (List (Nat × α))) (nOut : Nat)
+    (h : arrival.Perm (List.range parts.length)) (htarget : ∀ rows ∈ parts, ∀ r ∈ rows, r.1 < nOut) :
+    (diskShuffle arrival parts nOut).flatten.Perm parts.flatten := by
+  unfold diskShuffle orderedShuffle
+  refine (classes_flatten_perm (fun (r : Nat × α) => r.1) _ nOut).trans ?_
+  have hall : ((arrival.map fun i => parts.getD i []).flatten.filter fun r => decide (r.1 < nOut)) =
+      (arrival.map fun i => parts.getD i []).flatten := by
+    apply List.filter_eq_self.mpr
+    intro r hr
+    have hr' := (arrival_flatten_perm arrival parts h).mem_iff.mp hr
+    obtain ⟨rows, hrows, hrr⟩ := List.mem_flatten.mp hr'
+    simpa using htarget rows hrows r hrr
+  rw [hall]
+  exact arrival_flatten_perm arrival parts h
+
 end Dask.Shuffle
